@@ -162,6 +162,16 @@ def main():
     add('a_nometa', 'A', group='meta')
     add('g_named_nometa', 'G', cname='other_name', limit=2, group='meta')
     add('t_tag1', 'T', tags=['t1'], group='meta')
+    # used caches whose calls may all end without a store (Err outcome / rejected by cache_if): they are registered all the same
+    add('a_res_tag1', 'A', tags=['t1'], ret='Result<u64, u8>', group='meta2')
+    add('g_res_tag1', 'G', tags=['t1'], ret='Result<u64, u8>', group='meta2')
+    add('a_cif_ev1', 'A', events=['e1'], cif=True, group='meta2')
+    add('g_cif_ev1', 'G', events=['e1'], cif=True, group='meta2')
+    add('a_res_dep', 'A', deps=['g_tag1'], ret='Result<u64, u8>', cname='res_dep_a', group='meta2')
+    # memory-bounded caches without an entry limit (they evict too) for invalidation followed by memory pressure
+    for f in 'GA':
+        add(f'{f.lower()}_mem32_arc', f, policy='arc', mem=32, group='mem')
+        add(f'{f.lower()}_mem32_tlru', f, policy='tlru', mem=32, group='mem')
     # ---- signature shapes
     add('g_arity0', 'G', args=(), group='sig')
     add('a_arity0', 'A', args=(), group='sig')
